@@ -35,9 +35,9 @@ QUANT_HOSTS = [h for h in HOSTS if '/' in h]
 EXP = {'T': ('PASS', 0), 'F': ('FAIL', 32), 'ERR': ('SYNTAX_ERROR', 65)}
 
 
-def cfg(mode, max_tokens, invariants, quant=False):
-    return ('SPECIFICATION Spec\nCONSTANTS MaxTokens = %d\n Mode = "%s"\n Quant = %s\n'
-            % (max_tokens, mode, 'TRUE' if quant else 'FALSE')
+def cfg(mode, max_tokens, invariants, quant=False, deviations=()):
+    return ('SPECIFICATION Spec\nCONSTANTS MaxTokens = %d\n Mode = "%s"\n Quant = %s\n Deviations = {%s}\n'
+            % (max_tokens, mode, 'TRUE' if quant else 'FALSE', ', '.join('"%s"' % d for d in deviations))
             + ''.join('INVARIANT %s\n' % i for i in invariants) + 'CHECK_DEADLOCK FALSE\n')
 
 
@@ -166,6 +166,13 @@ def run(ctx):
         mcq = ctx.tlc('ExprGrammar', cfg('strings', lq + 1, ['QuantifierIsPrefixOperator', 'LeftToRight'], quant=True),
                       coverage=True, name='mc-quantifier', timeout=3000)
         ctx.require_coverage(mcq, ['Read'])
+        # sharpness: with the operand of a quantifier read as a whole expression TLC must refute the invariant
+        ctl = ctx.tlc('ExprGrammar', cfg('strings', lq + 1, ['QuantifierIsPrefixOperator'], quant=True,
+                                         deviations=['QuantifierTakesFullExpression']),
+                      name='mc-quantifier-deviation', timeout=3000, must_hold=False, count=False)
+        if 'QuantifierIsPrefixOperator' not in (ctl.violated or ''):
+            raise core.MachineryFailure('the deviation QuantifierTakesFullExpression is not refuted by TLC')
+        ctx.cov['negative_controls_rejected'] += 1
         eq = ctx.tlc('ExprGrammarExport', cfg('strings', lq, ['ExportStrings'], quant=True), workers=1,
                      name='export-quantifier', count=False, timeout=3000)
         qs = [c for c in eq.printed_json('STR') if 'Q' in c['ts']]
